@@ -227,31 +227,34 @@ func (EnvProto) XXX_Merge(i int) int { return i }
 
 // nested members
 type EnvNested struct {
-	A   EnvDepth
-	B   EnvAmbig
-	C   EnvShadowBefore
-	P   *ZMid
-	PP  **ZA
-	PM  *map[string]int
-	M   map[string]ZA
-	MI  map[int]string
-	MS  map[ZMyStr]int
-	MA  map[string]interface{}
-	I   interface{}
-	S   []ZA
-	Str string
-	MV  EnvPromV
-	MP  *EnvPromV
-	MC  EnvMethClash
-	U   EnvUnexported
-	Fn  EnvFuncs
-	MIF map[int]func(int) int // key type not a string: MIF.foo(1) is no method call the checker may accept
-	MBF map[bool]func(int) int
-	MIf map[interface{}]int // key type interface{}: a string constant is a usable key (MIf.k)
-	MSg map[ZStringer]int   // key type a non-empty interface: it is not
-	Pb  ZProto
-	PFn *EnvFuncs // function-typed fields behind a pointer: PFn.F(1)
-	Sg  ZStringer // a non-empty interface: Sg.String() has no receiver parameter
+	A     EnvDepth
+	B     EnvAmbig
+	C     EnvShadowBefore
+	P     *ZMid
+	PP    **ZA
+	PM    *map[string]int
+	M     map[string]ZA
+	MI    map[int]string
+	MS    map[ZMyStr]int
+	MA    map[string]interface{}
+	I     interface{}
+	S     []ZA
+	Str   string
+	MV    EnvPromV
+	MP    *EnvPromV
+	MC    EnvMethClash
+	U     EnvUnexported
+	Fn    EnvFuncs
+	MIF   map[int]func(int) int // key type not a string: MIF.foo(1) is no method call the checker may accept
+	MBF   map[bool]func(int) int
+	MIf   map[interface{}]int // key type interface{}: a string constant is a usable key (MIf.k)
+	MSg   map[ZStringer]int   // key type a non-empty interface: it is not
+	Pb    ZProto
+	PFn   *EnvFuncs  // function-typed fields behind a pointer: PFn.F(1)
+	PPFn  **EnvFuncs // two and three pointer levels: FetchFn follows one
+	PPPFn ***EnvFuncs
+	PPM   **map[string]func(int) int
+	Sg    ZStringer // a non-empty interface: Sg.String() has no receiver parameter
 }
 
 // recursive type
@@ -321,8 +324,10 @@ type EnvScalars struct {
 	PS   *[]int         // pointer to a slice
 	PA   *[3]int        // pointer to an array
 	PPSt **ZA           // two pointer levels
-	Sg   ZStringer      // a non-empty interface ...
-	Zs   zstr           // ... and a type implementing it (assignable one way only)
+	PPFn **EnvFuncs     // method-call syntax on a func-typed field through two pointer levels
+	PPM  **map[string]func(int) int
+	Sg   ZStringer // a non-empty interface ...
+	Zs   zstr      // ... and a type implementing it (assignable one way only)
 }
 
 func (EnvScalars) Mi(a int, b string) int           { return a + len(b) }
